@@ -172,6 +172,9 @@ func (Engine) Generate(prop, tier string, seed, run uint64) json.RawMessage {
 			if r.IntN(10) == 0 {
 				nc = 9 + r.IntN(12) // content type bitmask beyond one byte
 			}
+			if r.IntN(25) == 0 {
+				nc = 57 + r.IntN(80) // content type bitmask of eight bytes and more
+			}
 			dir := r.IntN(2)
 			for j := 0; j < nc; j++ {
 				c := Chunk{Dir: dir, Seed: r.Uint32(), DtUS: int64(r.IntN(3)) * int64(r.IntN(2_000_000)), CT: cts[r.IntN(len(cts))]}
